@@ -445,7 +445,10 @@ def run_property(prop, tier, seed, jobs=None, only_family=None):
             devs = replay_file(mod, rp)
             replayed += 1
             for b in devs:
-                if match_known(known, b) is None and b not in new_buckets:
+                k = match_known(known, b)
+                if k is not None:
+                    known_hits.setdefault(k["id"], (k, []))[1].append(b)
+                elif b not in new_buckets:
                     new_buckets[b] = dict(replay=rp, cases=[], name=b)
 
     violations = []
